@@ -145,6 +145,8 @@ def run_case(kind, packets, cuts, behaviours, yields, settings):
         await asyncio.sleep(0.1)
     outcome = s.run(main)
     got = [aio.canon(m) for _, m in s.received]
+    if s.bad_deliveries:
+        got.append(("callback called with %s" % s.bad_deliveries[0][1],))
     exp = aio.reference_delivery(KIND_FMT[kind], packets, settings)
     return outcome, got, exp, s
 
